@@ -182,7 +182,10 @@ func HarnessC04(fam, nT, nV, convCode, form, sv, mode int) {
 	if anyPtr && vnBool("nilPtrOnFail") {
 		w.NilPtrOnFail = true
 	}
-	vnNote(w.String())
+	if mode&128 != 0 {
+		w.ErrKind = hPick("errKind", 4)
+	}
+	vnNote(w.String() + fmt.Sprintf(" errKind=%d", w.ErrKind))
 	vnOnDivergence("", "")
 	r, built, panicked, _ := w.hCall()
 	if !built {
